@@ -42,7 +42,7 @@ Section Steps.
     py_index es n = Some x -> (- Z.of_nat (length es) <= n < Z.of_nat (length es))%Z ->
     simp (S f) st bd c (Subscript v s) = Ok (x, c2).
   Proof.
-    intros Hv Hs Hx Hr. cbn [simp]. rewrite Hv. cbn [sbind]. rewrite Hs. cbn [sbind const_index].
+    intros Hv Hs Hx Hr. cbn [simp]. rewrite Hv. cbn [sbind]. rewrite Hs. cbn [sbind const_index norm_index].
     unfold seq_project.
     replace ((n >=? Z.of_nat (length es)) || (n <? - Z.of_nat (length es)))%Z with false.
     - rewrite Hx. reflexivity.
@@ -54,7 +54,7 @@ Section Steps.
     py_index es n = Some x -> (- Z.of_nat (length es) <= n < Z.of_nat (length es))%Z ->
     simp (S f) st bd c (Subscript v s) = Ok (x, c2).
   Proof.
-    intros Hv Hs Hx Hr. cbn [simp]. rewrite Hv. cbn [sbind]. rewrite Hs. cbn [sbind const_index].
+    intros Hv Hs Hx Hr. cbn [simp]. rewrite Hv. cbn [sbind]. rewrite Hs. cbn [sbind const_index norm_index].
     unfold seq_project.
     replace ((n >=? Z.of_nat (length es)) || (n <? - Z.of_nat (length es)))%Z with false.
     - rewrite Hx. reflexivity.
@@ -71,7 +71,7 @@ Section Steps.
     intros Hv Hs Hr. cbn [simp].
     assert (Hb : ((n >=? Z.of_nat (length es)) || (n <? - Z.of_nat (length es)))%Z = true).
     { apply orb_true_iff. destruct Hr as [Hr|Hr]; [left; apply Z.geb_le; lia | right; apply Z.ltb_lt; lia]. }
-    destruct Hv as [Hv|Hv]; rewrite Hv; cbn [sbind]; rewrite Hs; cbn [sbind const_index]; unfold seq_project; rewrite Hb; reflexivity.
+    destruct Hv as [Hv|Hv]; rewrite Hv; cbn [sbind]; rewrite Hs; cbn [sbind const_index norm_index]; unfold seq_project; rewrite Hb; reflexivity.
   Qed.
 
   (* {k0: v0, ...}[k] and {...}.k with a constant key that the literal defines: the value of its last entry *)
@@ -80,7 +80,7 @@ Section Steps.
     const_key k = true -> length ks = length vs -> dict_scan (rev ks) (rev vs) k = Some x ->
     simp (S f) st bd c (Subscript v s) = Ok (x, c2).
   Proof.
-    intros Hv Hs Hk Hl Hx. cbn [simp]. rewrite Hv. cbn [sbind]. rewrite Hs. cbn [sbind]. rewrite Hk.
+    intros Hv Hs Hk Hl Hx. cbn [simp]. rewrite Hv. cbn [sbind]. rewrite Hs. cbn [sbind norm_index]. rewrite Hk.
     unfold dict_with_value. rewrite Hl, Nat.eqb_refl. cbn [sbind]. rewrite Hx. reflexivity.
   Qed.
 
@@ -99,7 +99,7 @@ Section Steps.
     const_key k = true -> length ks = length vs -> dict_scan (rev ks) (rev vs) k = None ->
     simp (S f) st bd c (Subscript v s) = Ok (Subscript (Dict ks vs) (Const k), c2).
   Proof.
-    intros Hv Hs Hk Hl Hx. cbn [simp]. rewrite Hv. cbn [sbind]. rewrite Hs. cbn [sbind]. rewrite Hk.
+    intros Hv Hs Hk Hl Hx. cbn [simp]. rewrite Hv. cbn [sbind]. rewrite Hs. cbn [sbind norm_index]. rewrite Hk.
     unfold dict_with_value. rewrite Hl, Nat.eqb_refl. cbn [sbind]. rewrite Hx. reflexivity.
   Qed.
 
@@ -118,11 +118,25 @@ Section Steps.
 
   Lemma odd_selector_step c v s v' s' c1 c2 :
     simp f st bd c v = Ok (v', c1) -> simp f st bd c1 s = Ok (s', c2) ->
-    is_literal v' = true -> is_const s' = false ->
-    simp (S f) st bd c (Subscript v s) = Ok (Subscript v' s', c2).
+    is_literal v' = true -> is_const (norm_index s') = false ->
+    simp (S f) st bd c (Subscript v s) = Ok (Subscript v' (norm_index s'), c2).
   Proof.
     intros Hv Hs Hlit Hc. cbn [simp]. rewrite Hv. cbn [sbind]. rewrite Hs. cbn [sbind].
-    destruct v'; try discriminate; destruct s'; try discriminate; reflexivity.
+    destruct v'; try discriminate; destruct (norm_index s'); try discriminate; reflexivity.
+  Qed.
+
+  (* a negative literal index -(n) is a constant index *)
+  Lemma negative_literal_step c v s es n c1 c2 x :
+    simp f st bd c v = Ok (Tuple es, c1) \/ simp f st bd c v = Ok (List es, c1) ->
+    simp f st bd c1 s = Ok (UnaryOp USub (Const (CInt n)), c2) ->
+    py_index es (- n) = Some x -> (- Z.of_nat (length es) <= - n < Z.of_nat (length es))%Z ->
+    simp (S f) st bd c (Subscript v s) = Ok (x, c2).
+  Proof.
+    intros Hv Hs Hx Hr. cbn [simp].
+    assert (Hb : ((- n >=? Z.of_nat (length es)) || (- n <? - Z.of_nat (length es)))%Z = false).
+    { apply orb_false_iff. split; [rewrite Z.geb_leb; apply Z.leb_gt; lia | apply Z.ltb_ge; lia]. }
+    destruct Hv as [Hv|Hv]; rewrite Hv; cbn [sbind]; rewrite Hs; cbn [sbind norm_index const_index];
+      unfold seq_project; rewrite Hb, Hx; reflexivity.
   Qed.
 
   (* a constant of the wrong type (None, a string index into a tuple, a float, ...) likewise *)
@@ -133,6 +147,6 @@ Section Steps.
     = Ok (Subscript (match simp f st bd c v with Ok (v', _) => v' | _ => v end) (Const k), c2).
   Proof.
     intros Hv Hs Hk. cbn [simp].
-    destruct Hv as [Hv|Hv]; rewrite Hv; cbn [sbind]; rewrite Hs; cbn [sbind]; rewrite Hk; reflexivity.
+    destruct Hv as [Hv|Hv]; rewrite Hv; cbn [sbind]; rewrite Hs; cbn [sbind norm_index]; rewrite Hk; reflexivity.
   Qed.
 End Steps.
